@@ -258,10 +258,50 @@ def c02(ctx):
                 distinct.add(k[:2])
                 if len(samples) < 3 and len(k[1]) > 1:
                     samples.append({"hash_len": k[0], "seeds": [(a, b.hex()) for a, b in k[1]]})
+    # seeds under an output write fault: a file size limit (EFBIG, SIGXFSZ ignored) makes every write
+    # beyond `limit` bytes fail; a clone that still reports success must have produced the source
+    import resource
+    import signal
+    fault_cases = 0
+    big = b"".join(bytes([65 + i]) * 512 for i in range(16))           # 16 chunks of 512 bytes
+    bsrc = os.path.join(root, "big.bin")
+    barc = os.path.join(root, "big.cba")
+    with open(bsrc, "wb") as f:
+        f.write(big)
+    r = sh([bita, "compress", "--fixed-size", "512B", "--compression", "none", "-i", bsrc, barc])
+    if r.returncode != 0:
+        raise RuntimeError("compress failed: " + r.stderr.decode())
+    seed_variants = [big, big[4096:] + big[:4096], big[:2048] + b"?" * 700 + big[6144:]]
+    for limit in range(512, len(big) + 1, 512):
+        for si, seedb in enumerate(seed_variants):
+            for prior in (None, b"#" * len(big)):
+                d = os.path.join(root, f"f{limit}-{si}-{0 if prior is None else 1}")
+                os.makedirs(d)
+                out, sp = os.path.join(d, "out.bin"), os.path.join(d, "seed.bin")
+                with open(sp, "wb") as f:
+                    f.write(seedb)
+                flags = []
+                if prior is not None:
+                    with open(out, "wb") as f:
+                        f.write(prior)
+                    flags = ["-f"]
+
+                def pre(limit=limit):
+                    signal.signal(signal.SIGXFSZ, signal.SIG_IGN)
+                    resource.setrlimit(resource.RLIMIT_FSIZE, (limit, limit))
+                r = subprocess.run([bita, "clone"] + flags + ["--seed", sp, barc, out], env=env(), stdin=subprocess.DEVNULL,
+                                   stdout=subprocess.PIPE, stderr=subprocess.PIPE, preexec_fn=pre, timeout=60)
+                fault_cases += 1
+                if r.returncode == 0:
+                    ob = open(out, "rb").read() if os.path.exists(out) else b""
+                    if ob != big:
+                        viol.add("success-with-wrong-output", {"fault": f"RLIMIT_FSIZE={limit}", "seed_variant": si, "existing_output": prior is not None,
+                                                               "differing_bytes": sum(1 for a, b in zip(ob, big) if a != b) + abs(len(ob) - len(big))})
+                distinct.add(("fault", limit, si, prior is not None))
     shutil.rmtree(root, ignore_errors=True)
-    cov = {"evaluations": len(cases), "distinct_nontrivial": len(distinct), "exhaustive": True, "samples": samples,
+    cov = {"evaluations": len(cases) + fault_cases, "write_fault_cases": fault_cases, "distinct_nontrivial": len(distinct), "exhaustive": True, "samples": samples,
            "stdin_seed_cases": sum(1 for c in cases if any(k == "-" for k, _ in c[2])),
-           "rule": "real binary, FixedSize(4) archive of a 22-byte source with a duplicate chunk, hash length 64 and 4: every seed of a 7-seed pool (related, unrelated, source itself, empty, shifted by a half word) as stdin seed and as file seed, every ordered pair of 5 seeds as (stdin,file), (file,stdin) and (file,file), one triple; oracle: exit 0 and output == source; non-trivial = distinct seed configurations that ran to the end"}
+           "rule": "real binary, FixedSize(4) archive of a 22-byte source with a duplicate chunk, hash length 64 and 4: every seed of a 7-seed pool (related, unrelated, source itself, empty, shifted by a half word) as stdin seed and as file seed, every ordered pair of 5 seeds as (stdin,file), (file,stdin) and (file,file), one triple; oracle: exit 0 and output == source; plus seeded clones of a 16-chunk source under a file size limit at every chunk boundary (writes beyond it fail with EFBIG) x 3 seed variants x {new, existing output}: reported success implies output == source; non-trivial = distinct seed configurations that ran to the end"}
     return result(ctx["pid"], "exploration", cov, viol, t0, ["A5"])
 
 
